@@ -545,10 +545,11 @@ def dynamic_cases(tier):
 
 
 def _library_chunk(args):
-    srcs, limits = args
+    srcs, limits = args[:2]
+    perms = args[2] if len(args) > 2 else {'regex': True}
     n = len(srcs)
     units = [('c%d' % i, 'let c%d = ()->{ %s };' % (i, s)) for i, s in enumerate(srcs)]
-    outs = run_units(units, prelude=[T.DECLS + 'fn ids(s: Sequence<int>)->Sequence<int>{ s }\n'], limits=limits, perms={'regex': True}, dump={'max_items': 6}, timeout=20.0, reset_calls=True)
+    outs = run_units(units, prelude=[T.DECLS + 'fn ids(s: Sequence<int>)->Sequence<int>{ s }\n'], limits=limits, perms=perms, dump={'max_items': 6}, timeout=20.0, reset_calls=True)
     res = []
     for o in outs:
         v = o.v
@@ -709,6 +710,23 @@ def run(tier):
             if r.startswith(('panic', 'fatal', 'host')):
                 rep.fail(Failure(PROP, 'C01|library|%s|%s|%s' % (cname, src[:120], r), {'src': src, 'limits': limits}, 'a value, an error or a violation', r,
                                  mk_unit_job([T.DECLS + 'fn ids(s: Sequence<int>)->Sequence<int>{ s }\n'], [('c0', 'let c0 = ()->{ %s };' % src)], limits, {'regex': True}, {'max_items': 6})))
+    # C'. effects with their permission granted, at arguments around what the host primitive accepts (a sleep that would really last
+    # is the user's request and is not made: only durations below a microsecond and beyond what a host duration can hold)
+    eff = []
+    for x in ('0.0', '-0.0', '5e-324', '1e-9', '-1e-9', '-1.0', '-1e300', '1e300', '1.7976931348623157e308', '18446744073709551616.0', '1.8446744073709556e19', '3.6893488147419103e19'):
+        eff += ['sleep(seconds(%s), 1)' % x, 'sleep(seconds(%s))' % x, 'sleep(hours(%s), "a")' % x.replace('1e-9', '1e-13'), 'sleep(days(%s), [1])' % x.replace('1e-9', '1e-14'),
+                'sleep(seconds(%s) * 2.0, 1)' % x, 'sleep(seconds(%s) + seconds(%s), 1)' % (x, x)]
+    rep.bounds['effect_edge_calls'] = len(eff)
+    res = []
+    for part in pmap(_library_chunk, [(w, {'size': 1 << 24, 'calls': 1000}, {'sleep': True, 'regex': True}) for w in chunks(eff, 12)]):
+        res += part
+    for src, r in zip(eff, res):
+        rep.evaluations += 1
+        rep.outcome('effect-' + r.split('@')[0].split(':')[0])
+        rep.nontrivial.add('effect|' + src)
+        if r.startswith(('panic', 'fatal', 'host')):
+            rep.fail(Failure(PROP, 'C01|effect|%s|%s' % (src, r), {'src': src, 'perms': {'sleep': True}}, 'a value, an error or a violation', r,
+                             mk_unit_job([T.DECLS], [('c0', 'let c0 = ()->{ %s };' % src)], {'size': 1 << 24, 'calls': 1000}, {'sleep': True, 'regex': True}, {'max_items': 6})))
     # D
     from . import c12
     scripts, book = c12.corpus(tier)
